@@ -5,6 +5,8 @@ file (the output of step k is the input of step k+1), so arguments are always
 drawn from the documented domain of the file actually at hand.  Each step
 yields a Step record that the property monitors (C01, C05, C10) inspect.
 """
+import os
+
 import numpy as np
 
 from . import refsel
@@ -488,8 +490,39 @@ def op_interpsigma(rng, f):
     inner = np.sort(rng.uniform(old.min(), old.max(), m - 1))[::-1]
     new = np.concatenate([[old.max()], inner, [old.min()]])
     kind = str(rng.choice(['linear', 'conserve']))
+    if rng.random() < 0.3 and hasattr(f, 'VGTOP'):
+        # the rarely used model-top keyword (a lower top than the file's)
+        vgtop = float(f.VGTOP) + float(rng.choice([1000., 2500.]))
+        return ('interpSigma(%d levels, %s, vgtop=%g)' % (m, kind, vgtop),
+                (lambda: f.interpSigma(new, vgtop=vgtop, interptype=kind)),
+                [], True, {'vgtop': vgtop})
     return ('interpSigma(%d levels, %s)' % (m, kind),
             (lambda: f.interpSigma(new, interptype=kind)), [], True, {})
+
+
+def op_save_ioapi(rng, f):
+    """a query: write the file through the 'ioapi' writer; the program goes
+    on with the same file (what the write leaves behind in the process is
+    part of the history of everything constructed later)"""
+    if not is_ioapi(f) or has_zero_dim(f):
+        return None
+    import tempfile
+    from . import harness
+
+    def thunk():
+        d = tempfile.mkdtemp(dir=harness.tmproot())
+        try:
+            o = f.save(os.path.join(d, 'q.ioapi.nc'), format='ioapi',
+                       verbose=0)
+            try:
+                o.close()
+            except Exception:
+                pass
+        finally:
+            import shutil
+            shutil.rmtree(d, True)
+        return f
+    return ("save(format='ioapi')", thunk, [], True, {'query': True})
 
 
 # -- functional forms of core/_functions.py (the pncgen/pncdump -s -r -c
@@ -669,6 +702,8 @@ CORE_OPS = {
     'reorder': op_reorder, 'mask': op_mask, 'eval': op_eval,
     'arith': op_arith, 'interp': op_interp, 'interpsigma': op_interpsigma,
 }
+# further operations a check may allow by name
+EXTRA_OPS = {'save_ioapi': op_save_ioapi}
 
 
 def run_program(f, prog_seed, nops, allowed=None, on_step=None):
@@ -679,6 +714,7 @@ def run_program(f, prog_seed, nops, allowed=None, on_step=None):
     names = list(allowed or CORE_OPS.keys())
     table = dict(CORE_OPS)
     table.update(FN_OPS)
+    table.update(EXTRA_OPS)
     cur = f
     trace = []
     for k in range(nops):
